@@ -130,13 +130,9 @@ func rootState(l *lexer) stateFn {
 		case '"':
 			return stringState
 		case '\\':
-			if l.mode == lexerModeStringInterpolation {
-				r = l.next()
-				switch r {
-				case '(':
-					l.emitType(TokenStringTemplate)
-					l.openBrackets++
-				}
+			if l.mode == lexerModeStringInterpolation && l.acceptOne('(') {
+				l.emitType(TokenStringTemplate)
+				l.openBrackets++
 			} else {
 				return l.error(fmt.Errorf("unrecognized character: %#U", r))
 			}
